@@ -42,3 +42,8 @@ for mf in (False, True):
             print('matrix-free inside' if mf else 'plain', top, p.compute_totals(return_format='array').ravel())
         except Exception as e:
             print('matrix-free inside' if mf else 'plain', top, type(e).__name__, str(e)[:90])
+
+# (3) observed through C08 case 34 (seed 20260921): an approx_totals sub-group that contains an IMPLICIT component
+#     with rows/cols-declared (sparse) partials returns 0 for single entries of d(state)/d(input) that are non-zero
+#     through the component's own solve (e.g. 0 instead of -12), with relevance on or off, scaled or not; without
+#     approx_totals the same model gives the exact derivative.
